@@ -78,10 +78,22 @@ impl Engine for CorrEngine {
             kind = 3;
             store.data_blocks = 300 + zt.below(400) as u64;
         }
+        // own tape: synthesised images of several scan windows with records, duplicates, retirement
+        // chains and journal extents across the window boundaries and against the device's end
+        // (migr::synth_scatter), undamaged or damaged. Profile C10 opens only undamaged ones and
+        // demands that they open and read back.
+        let mut sk = Tape::fresh(mix(seed, 0x5CA7));
+        let mut scatter_edits = 0i64;
+        if property == "C10" || sk.chance(1, 7) {
+            kind = 4;
+            store.data_blocks = *sk.pick(&[258u64, 270, 300, 511, 513, 530, 700, 770, 1008, 1030]) + sk.below(3) as u64;
+            store.ttl = false;
+            scatter_edits = if property == "C10" { 0 } else { sk.below(3) as i64 };
+        }
+        knobs.insert("scatter_edits".into(), scatter_edits);
         knobs.insert("kind".into(), kind);
         knobs.insert("crash_source".into(), c.chance(1, 3) as i64);
         knobs.insert("edits".into(), 1 + c.below(if tier == "thorough" { 6 } else { 3 }) as i64);
-        let _ = property;
         Scenario {
             engine: "corr".into(),
             property: property.into(),
@@ -130,6 +142,14 @@ impl Engine for CorrEngine {
                 }
                 (img, vec![format!("zero-head foreign block {first_foreign} of {total_blocks}")])
             }
+            4 => {
+                let mut img = crate::engines::migr::synth_scatter(sc, &mut t, sc.seed);
+                let mut recipe = vec!["scattered multi-window image".to_string()];
+                for _ in 0..sc.knob("scatter_edits", 0) {
+                    recipe.push(damage(&mut img, sc.store.format, &mut t));
+                }
+                (img, recipe)
+            }
             2 => {
                 let bad = *t.pick(&[1usize, 4095, 4096, 16 * BLOCK, 16 * BLOCK + 1, 17 * BLOCK - 512, size + 100]);
                 let mut img = codec::empty_image(sc.store.format, size.max(bad), 1_700_000_000);
@@ -175,6 +195,9 @@ impl Engine for CorrEngine {
             }
             Ok(Err(e)) => {
                 report.count("open_err", 1);
+                if sc.property == "C10" && kind == 4 {
+                    report.fail("valid-image-rejected", format!("an image that follows the documented layout (independent writer, nothing damaged) was refused with {e:?} ({})", describe()));
+                }
                 let writes = disk.stats().writes;
                 let unchanged = disk.cache_image() == image;
                 // "size or metadata reasons": judged from the image itself (no valid metadata copy,
@@ -201,38 +224,94 @@ impl Engine for CorrEngine {
                     Ok(d) => d.live.keys().cloned().collect(),
                     Err(_) => sc.keys.clone(),
                 };
-                let store = Arc::clone(env.st());
-                sim.op_begin("probe");
-                let probed = std::panic::catch_unwind(std::panic::AssertUnwindSafe(|| {
-                    for k in keys.iter().chain(sc.keys.iter()) {
-                        let _ = store.get(k);
-                        let _ = store.get_size(k);
-                        let _ = store.contains_key(k);
+                if sc.property == "C10" && kind == 4 {
+                    // the undamaged image must read back exactly what the independent reader finds in
+                    // it, and after recovery's repairs and a clean close the file must still say so
+                    match codec::decode_image(&image, DecodeOptions { allow_ambiguous: false, apply_journal: true }) {
+                        Err(why) => report.fail("harness-synth-invalid", format!("independent reader rejects its own image: {why}")),
+                        Ok(want) => {
+                            let store = Arc::clone(env.st());
+                            let got: BTreeMap<Vec<u8>, (u64, u64, usize)> = store.verif_hash_keys().into_iter().map(|k| (k.key, (k.timestamp, k.expiry, k.value_len))).collect();
+                            let exp: BTreeMap<Vec<u8>, (u64, u64, usize)> = want.live.iter().map(|(k, r)| (k.clone(), (r.timestamp, r.expiry, r.value.len()))).collect();
+                            if got != exp {
+                                report.fail("valid-image-misread", format!("recovery exposes {} generations, the independent reader finds {} (or they differ): {:?} vs {:?} ({})", got.len(), exp.len(), got.iter().map(|(k, v)| (String::from_utf8_lossy(k).into_owned(), v.0)).collect::<Vec<_>>(), exp.iter().map(|(k, v)| (String::from_utf8_lossy(k).into_owned(), v.0)).collect::<Vec<_>>(), describe()));
+                            }
+                            for (k, r) in &want.live {
+                                match store.get(k) {
+                                    Ok(v) if v == r.value => {}
+                                    other => {
+                                        report.fail("valid-image-misread", format!("get({}) on the opened image returned {:?}, the image holds a {} byte value at block {} ({})", String::from_utf8_lossy(k), other.map(|v| v.len()), r.value.len(), r.sector, describe()));
+                                        break;
+                                    }
+                                }
+                            }
+                            drop(store);
+                            report.count("valid_scattered_images_read_back", 1);
+                            let closed = std::panic::catch_unwind(std::panic::AssertUnwindSafe(|| env.close()));
+                            if closed.is_err() {
+                                report.fail("panic-on-close", format!("dropping the store panicked: {} ({})", LAST_PANIC.lock().unwrap(), describe()));
+                                env.store = None;
+                            } else if report.violation.is_none() {
+                                let after = disk.cache_image();
+                                match codec::decode_image(&after, DecodeOptions::default()) {
+                                    Err(why) => report.fail("image-rejected", format!("after recovery and a clean close the file no longer follows the documented layout: {why} ({})", describe())),
+                                    Ok(d) => {
+                                        if d.journal.as_ref().is_some_and(|j| j.active) {
+                                            report.fail("journal-active-after-close", format!("allocation journal still active after recovery and a clean close ({})", describe()));
+                                        }
+                                        let same = d.live.len() == want.live.len() && want.live.iter().all(|(k, r)| d.live.get(k).is_some_and(|m| m.value == r.value && m.timestamp == r.timestamp && m.expiry == r.expiry && m.sector == r.sector));
+                                        if !same {
+                                            report.fail("image-generation-mismatch", format!("after recovery and a clean close the file holds {} records, before {} (or a generation moved or changed) ({})", d.live.len(), want.live.len(), describe()));
+                                        }
+                                        if !d.stale.is_empty() {
+                                            report.fail("stale-duplicate-left", format!("after recovery and a clean close {} superseded generations are still on the device ({})", d.stale.len(), describe()));
+                                        }
+                                        if d.retired_extents.iter().any(|e| !e.2) {
+                                            report.fail("pending-retirement-left", format!("after recovery and a clean close a retirement chain is still pending ({})", describe()));
+                                        }
+                                        if let Err(why) = codec::verify_marker_chains(&after, &d) {
+                                            report.fail("retirement-marker-chain", format!("{why} ({})", describe()));
+                                        }
+                                    }
+                                }
+                            }
+                        }
                     }
-                    for k in store.verif_hash_keys() {
-                        let _ = store.get_bytes(&k.key);
-                    }
-                    let _ = store.range_query(&[], &[0xff; 16], 1000);
-                    let _ = store.len();
-                    let _ = store.insert(b"probe:corr", &vec![7u8; 5000]);
-                    let _ = store.flush();
-                    let _ = store.get(b"probe:corr");
-                    if let Some(k) = keys.first() {
-                        let _ = store.insert(k, b"overwrite");
-                        let _ = store.delete(k);
-                    }
-                    let _ = store.delete(b"probe:corr");
-                    let _ = store.flush();
-                }));
-                sim.op_end();
-                drop(store);
-                if probed.is_err() {
-                    report.fail("panic-on-probe", format!("a store opened from the image panicked during the probe workload: {} ({})", LAST_PANIC.lock().unwrap(), describe()));
                 }
-                let closed = std::panic::catch_unwind(std::panic::AssertUnwindSafe(|| env.close()));
-                if closed.is_err() {
-                    report.fail("panic-on-close", format!("dropping the store panicked: {} ({})", LAST_PANIC.lock().unwrap(), describe()));
-                    env.store = None;
+                if env.store.is_some() {
+                    let store = Arc::clone(env.st());
+                    sim.op_begin("probe");
+                    let probed = std::panic::catch_unwind(std::panic::AssertUnwindSafe(|| {
+                        for k in keys.iter().chain(sc.keys.iter()) {
+                            let _ = store.get(k);
+                            let _ = store.get_size(k);
+                            let _ = store.contains_key(k);
+                        }
+                        for k in store.verif_hash_keys() {
+                            let _ = store.get_bytes(&k.key);
+                        }
+                        let _ = store.range_query(&[], &[0xff; 16], 1000);
+                        let _ = store.len();
+                        let _ = store.insert(b"probe:corr", &vec![7u8; 5000]);
+                        let _ = store.flush();
+                        let _ = store.get(b"probe:corr");
+                        if let Some(k) = keys.first() {
+                            let _ = store.insert(k, b"overwrite");
+                            let _ = store.delete(k);
+                        }
+                        let _ = store.delete(b"probe:corr");
+                        let _ = store.flush();
+                    }));
+                    sim.op_end();
+                    drop(store);
+                    if probed.is_err() {
+                        report.fail("panic-on-probe", format!("a store opened from the image panicked during the probe workload: {} ({})", LAST_PANIC.lock().unwrap(), describe()));
+                    }
+                    let closed = std::panic::catch_unwind(std::panic::AssertUnwindSafe(|| env.close()));
+                    if closed.is_err() {
+                        report.fail("panic-on-close", format!("dropping the store panicked: {} ({})", LAST_PANIC.lock().unwrap(), describe()));
+                        env.store = None;
+                    }
                 }
             }
         }
